@@ -250,7 +250,7 @@ class Scale(EnvironmentFilter):
         return scale_num if scale_den < .000001 else scale_num/scale_den
 
 class Impute(EnvironmentFilter):
-    """Impute missing values (nan) in Interaction contexts."""
+    """Impute missing values (None or nan) in Interaction contexts."""
 
     def __init__(self,
         stat : Literal["mean","median","mode"] = "mean",
@@ -343,7 +343,7 @@ class Impute(EnvironmentFilter):
                 imputation = self._get_imputation(col)
                 if imputation is not None:
                     imputations[i] = imputation
-                    if self._miss and any([c is None for c in col]):
+                    if self._miss and any(map(self._is_missing,col)):
                         impute_binary[i] = len(impute_binary)
 
         elif is_sparse:
@@ -356,13 +356,13 @@ class Impute(EnvironmentFilter):
                 imputation = self._get_imputation(col + [0]*(len(using_interactions)-len(col)))
                 if imputation is not None:
                     imputations[k] = imputation
-                    if self._miss and any([c is None for c in col]):
+                    if self._miss and any(map(self._is_missing,col)):
                         impute_binary[k] = f"{k}_is_missing"
                         binary_template[f"{k}_is_missing"] = 0
 
         elif is_value:
             imputations = self._get_imputation(unimputed)
-            impute_binary = self._miss and any([c is None for c in unimputed])
+            impute_binary = self._miss and any(map(self._is_missing,unimputed))
         self._times[2] += time.time()-start
 
         start = time.time()
@@ -373,7 +373,7 @@ class Impute(EnvironmentFilter):
             if is_dense:
                 is_missing = [0]*len(impute_binary)
                 for k,v in enumerate(context):
-                    if v is None and k in imputations:
+                    if (v is None or v != v) and k in imputations:
                         context[k] = imputations[k]
                         if k in impute_binary:
                             is_missing[impute_binary[k]] = 1
@@ -383,30 +383,35 @@ class Impute(EnvironmentFilter):
 
                 is_missing = binary_template.copy()
                 for k,v in context.items():
-                    if v is None and k in imputations:
+                    if (v is None or v != v) and k in imputations:
                         context[k] = imputations[k]
                         if k in impute_binary:
                             is_missing[impute_binary[k]] = 1
-                    elif v is None and k not in unimputed and k not in unimputable_cols:
+                    elif (v is None or v != v) and k not in unimputed and k not in unimputable_cols:
                         context[k] = unseen_imputation
                 context.update(is_missing)
 
             elif is_value:
                 if impute_binary:
-                    if context is None:
-                        interaction["context"] = [imputations,1]
+                    if self._is_missing(context):
+                        interaction["context"] = [context if imputations is None else imputations,1]
                     else:
                         interaction["context"] = [context,0]
                 else:
-                    if context is None:
+                    if self._is_missing(context) and imputations is not None:
                         interaction["context"] = imputations
 
             yield interaction
         self._times[3] += time.time()-start
 
+    @staticmethod
+    def _is_missing(value) -> bool:
+        #nan != nan so a value that is not equal with itself is nan (same trick as in Scale)
+        return value is None or value != value
+
     def _get_imputation(self,values):
         try:
-            values = [v for v in values if v is not None]
+            values = [v for v in values if v is not None and v == v]
             if self._stat != "mode" and not all(isinstance(v,(int,float)) for v in values):
                 return None #mean and median are only defined for numeric features
             if self._stat == "mean":
